@@ -943,3 +943,52 @@ func RunErrControls(r *Report) {
 	}
 	r.Floor("errcontrol", 14)
 }
+
+// RunSizeControls runs the size-agreement rule on the ctlSz* types of
+// /verif/controls/sizes.go.
+func RunSizeControls(r *Report) {
+	r.Rule("sizecontrol: the size-agreement rule, run on the must-report and must-pass types in /verif/controls/sizes.go, reports every pair whose encodeLen and encode disagree (header size, stride, an optional field, the wrong slice, padding, a child left out) and none that agree")
+	cw, err := controlWorld(r.verifDir)
+	if err != nil {
+		r.Fail("sizecontrol", r.MkKey("sizecontrol", "controls", "load"), "-", "cannot load the control package: "+err.Error(), nil)
+		return
+	}
+	sub := NewReport(r.Property, r.Tier, r.verifDir)
+	sub.table = map[string]TableEntry{}
+	sub.known = map[string]KnownFinding{}
+	sub.W = cw
+	func() {
+		defer func() {
+			if x := recover(); x != nil {
+				r.Fatal("sizeagree panic on the control package: %v", x)
+			}
+		}()
+		RunSizeAgree(cw, sub, nil)
+	}()
+	n := 0
+	for _, o := range sub.Obls {
+		if o.Rule != "sizeagree" {
+			continue
+		}
+		parts := strings.Split(o.Key, "|")
+		if len(parts) < 2 || !strings.Contains(parts[1], "ctlSz") {
+			continue
+		}
+		n++
+		name := parts[1][strings.Index(parts[1], "ctlSz"):]
+		key := r.MkKey("sizecontrol", name, "verdict")
+		reported := o.Status == StViolation
+		bad := strings.HasPrefix(name, "ctlSzBad")
+		switch {
+		case bad && reported:
+			r.OK("sizecontrol", key, o.Pos, "reported: "+o.Detail)
+		case bad:
+			r.Fail("sizecontrol", key, o.Pos, "encodeLen and encode of this type disagree and the rule accepts the pair: the rule is unsound", nil)
+		case !reported:
+			r.OK("sizecontrol", key, o.Pos, "accepted")
+		default:
+			r.Fail("sizecontrol", key, o.Pos, "this consistent pair is reported: "+o.Detail, nil)
+		}
+	}
+	r.Floor("sizecontrol", 9)
+}
